@@ -578,14 +578,14 @@ def run_bounded(rep: Report, tier: str) -> None:
              {"trees": "all", "rankings": "all"}, "orders None, 'dfs', 'surface_order'")
     add_nets("A", "A: Net(3,3,2) complete x all 3 trees x all orders", scope.networks(3, 3, 2), True,
              {"trees": "all", "rankings": "all"}, "both total rankings, constant, ties")
-    add_nets("A", "A: Net(4,4,2) sample x all 15 trees x all 6 rankings", _sample_n(4, 4, 2, 300 if quick else 5000, rng), False,
+    add_nets("A", "A: Net(4,4,2) sample x all 15 trees x all 6 rankings", _sample_n(4, 4, 2, 300 if quick else 12000, rng), False,
              {"trees": "all", "rankings": "all"}, "seeded sample")
-    add_nets("A", "A: Net(5,5,3) sample x all 105 trees x all 24 rankings", _sample_n(5, 5, 3, 30 if quick else 600, rng), False,
+    add_nets("A", "A: Net(5,5,3) sample x all 105 trees x all 24 rankings", _sample_n(5, 5, 3, 30 if quick else 1500, rng), False,
              {"trees": "all", "rankings": "all"}, "seeded sample")
-    add_nets("A", "A: Net(6,5,3) sample x all 945 trees x 4 random rankings", _sample_n(6, 5, 3, 8 if quick else 150, rng), False,
+    add_nets("A", "A: Net(6,5,3) sample x all 945 trees x 4 random rankings", _sample_n(6, 5, 3, 8 if quick else 400, rng), False,
              {"trees": "all", "rankings": 4}, "seeded sample; rankings sampled (720 exist)")
     add_nets("A", "A: Net(7..8,6,3) sample x 60 random trees x 6 random rankings",
-             [scope.sample_networks(rng.randint(7, 8), 6, 3, 1, rng)[0] for _ in range(20 if quick else 400)], False,
+             [scope.sample_networks(rng.randint(7, 8), 6, 3, 1, rng)[0] for _ in range(20 if quick else 1500)], False,
              {"trees": 60, "rankings": 6}, "seeded sample")
     # ---- B
     bpaths = []
@@ -601,7 +601,7 @@ def run_bounded(rep: Report, tier: str) -> None:
         items.append(("B", name_b, idx, b))
     name_b2 = "B: random SSA paths, N in 3..9"
     rp = []
-    for _ in range(20000 if quick else 400000):
+    for _ in range(20000 if quick else 1000000):
         n = rng.randint(3, 9)
         rp.append((n, random_ssa_path(n, rng, complete=rng.random() < 0.6)))
     blocks = [rp[i : i + chunk] for i in range(0, len(rp), chunk)]
@@ -612,13 +612,13 @@ def run_bounded(rep: Report, tier: str) -> None:
     add_nets("C", "C: Net(2,3,3) complete x every permutation of the indices", scope.networks(2, 3, 3, outputs="sets"), True, {},
              "one output per output set (edge paths do not depend on the output order)")
     add_nets("C", "C: Net(3,3,2) complete x every permutation of the indices", scope.networks(3, 3, 2), True, {}, "all 4106 networks, <= 6 permutations + prefixes")
-    add_nets("C", "C: Net(4,4,2) sample x every permutation", _sample_n(4, 4, 2, 1500 if quick else 30000, rng), False, {}, "seeded sample; <= 24 permutations + prefixes")
+    add_nets("C", "C: Net(4,4,2) sample x every permutation", _sample_n(4, 4, 2, 1500 if quick else 80000, rng), False, {}, "seeded sample; <= 24 permutations + prefixes")
     add_nets("C", "C: Net(5..6,6,3) sample x 40 permutations",
-             [scope.sample_networks(rng.randint(5, 6), 6, 3, 1, rng)[0] for _ in range(300 if quick else 6000)], False, {"perms": 40}, "seeded sample")
+             [scope.sample_networks(rng.randint(5, 6), 6, 3, 1, rng)[0] for _ in range(300 if quick else 20000)], False, {"perms": 40}, "seeded sample")
     # ---- D
     add_nets("D", "D: Net(3,3,2) complete x 6 incomplete/unary paths", scope.networks(3, 3, 2), True, {"paths": 6}, "paths sampled")
     add_nets("D", "D: Net(4..7,6,3) sample x 12 incomplete/unary paths",
-             [scope.sample_networks(rng.randint(4, 7), 6, 3, 1, rng)[0] for _ in range(800 if quick else 15000)], False, {"paths": 12}, "seeded sample")
+             [scope.sample_networks(rng.randint(4, 7), 6, 3, 1, rng)[0] for _ in range(800 if quick else 50000)], False, {"paths": 12}, "seeded sample")
     items.sort(key=lambda it: (len(it[3]) if it[0] != "B" else 3))  # small networks first
     for status, r in pmap(_work, items, chunk=8):
         agg.add(status, r, "C10")
